@@ -333,6 +333,9 @@ func visitInstr(fr *frame, instr ssa.Instruction) continuation {
 		fr.env[instr] = makeMap(instr.Type().Underlying().(*types.Map).Key(), reserve)
 
 	case *ssa.Range:
+		if _, isMap := instr.X.Type().Underlying().(*types.Map); isMap {
+			raceMap(fr, instr.Pos(), fr.get(instr.X), false)
+		}
 		fr.env[instr] = rangeIter(fr, fr.get(instr.X), instr.X.Type())
 
 	case *ssa.Next:
@@ -365,6 +368,7 @@ func visitInstr(fr *frame, instr ssa.Instruction) continuation {
 		if isSym(key) {
 			key = fr.concValue(key, "map key")
 		}
+		raceMap(fr, instr.Pos(), m, true)
 		switch m := m.(type) {
 		case map[value]value:
 			m[key] = v
